@@ -1,5 +1,6 @@
 import NunavutVerif.Model.Options
 import NunavutVerif.Gen.OptionDomain
+import NunavutVerif.Gen.OptionEmit
 import NunavutVerif.Proto
 /-!
 Driver for the C17 correspondence.  One request per line:
@@ -12,6 +13,16 @@ Driver for the C17 correspondence.  One request per line:
                                            are reached) from setA, setB, … → per-header answers joined by `|`, or `err:gen`
   `exp <set₁> <set₂>`                      the key-level prediction `expected`, same answer format
   `dom <c|cpp>`                            → the generated table the driver was linked with
+  `sites`                                  → the generated emission table (`Gen.emitSites`) in a canonical spelling
+  `cfg <c|cpp>`                            → the generated built-in configuration (`options~…#preset=…&…`)
+  `flow <c|cpp> <request>`                 → `ok <effective set as key~value;…>` | `rej:<error>`   (Model/OptionFlow.lean)
+  `emit <c|cpp> <support|type> <0|1> <set>` → what the emission table says the header carries: `ok:<name=number,…|->` |
+                                           `err:gen` | `uninterpretable`
+  `hist <c|cpp> <call>|<call>|…`           one process, calls `T,<omit>,<request>` (generate_types), `N,<id>,<request>`
+                                           (new generator objects), `P,<id>,<omit>` (a pass of generate_all), rendered by the
+                                           emission table → per call `new` | `rej:<error>` | `err:gen` | `nogen` |
+                                           `ok:<defines|x>:<asserts>`, joined by `|`
+  `cmpx <macro|u32|other> <d> <v>`         → `static_assert( N == v )` with N defined from the numeral d: `1` | `0` | `undef`
 
 Option sets: `-` (empty) or `;`-separated `key~name~value` with key/name protocol strings and value as for `enc`.
 -/
@@ -62,6 +73,74 @@ def showDom (d : List DocOpt) : String :=
     encodeStr e.key.toList ++ "~" ++ encodeStr e.name.toList ++ "~" ++ toString e.values.length ++ "~"
       ++ (if e.always then "1" else "0") ++ (if e.defined then "1" else "0") ++ (if e.asserted then "1" else "0"))
 
+def showVal : OptVal → String
+  | .bool b => if b then "b1" else "b0"
+  | .int i => "i" ++ toString i
+  | .str s => "s" ++ encodeStr s.toList
+  | .other => "o"
+
+def showSet (o : OptSet) : String :=
+  if o.isEmpty then "-" else ";".intercalate (o.map fun (k, v) => encodeStr k.toList ++ "~" ++ showVal v)
+
+def showPairs (l : List (String × Int)) : String :=
+  if l.isEmpty then "-" else ",".intercalate (l.map fun (n, v) => encodeStr n.toList ++ "=" ++ toString v)
+
+def showErr : FlowErr → String
+  | .noStd => "no-std" | .noCtor => "no-ctor" | .badCtor => "bad-ctor" | .allocatorRequired => "allocator-required"
+
+def showGuard : Guard → String
+  | .notOmit => "notOmit"
+  | .includeGuard => "includeGuard"
+  | .other k t => "other:" ++ encodeStr k.toList ++ ":" ++ encodeStr t.toList
+
+def showSite (s : EmitSite) : String :=
+  "~".intercalate [
+    (match s.lang with | .c => "c" | .cpp => "cpp"),
+    (match s.side with | .support => "support" | .type => "type"),
+    encodeStr s.file.toList, encodeStr s.loopOver.toList, encodeStr s.loopVars.toList,
+    (if s.guards.isEmpty then "-" else ",".intercalate (s.guards.map showGuard)),
+    (match s.nameExpr with
+      | .idOfKey => "id" | .macrofyPrefixed p => "mac:" ++ encodeStr p.toList | .other x => "other:" ++ encodeStr x.toList),
+    (match s.valueExpr with | .encOfValue => "enc" | .other x => "other:" ++ encodeStr x.toList),
+    (match s.form with
+      | .define .macro => "def:macro"
+      | .define (.constexprVar .uint32) => "def:cx:u32"
+      | .define (.constexprVar (.other x)) => "def:cx:other:" ++ encodeStr x.toList
+      | .define (.other x) => "def:other:" ++ encodeStr x.toList
+      | .staticAssert q .eq => "sa:" ++ encodeStr q.toList ++ ":eq"
+      | .staticAssert q (.other x) => "sa:" ++ encodeStr q.toList ++ ":other:" ++ encodeStr x.toList
+      | .other x => "other:" ++ encodeStr x.toList)]
+
+def optionPrefix : String := "NUNAVUT_SUPPORT_LANGUAGE_OPTION_"
+
+/-- The two name filters as tables: `tbl` maps an option key to its rendered name (`macrofy(prefix + key)` in C,
+`id(key)` in C++), taken from the request line (computed by the real filters) and from the generated domain. -/
+def nfFrom (tbl : List (String × String)) : NameFilters :=
+  ⟨fun s => if s.startsWith optionPrefix then nameFrom tbl (s.drop optionPrefix.length).toString else s, nameFrom tbl⟩
+
+/-- The emitter the generated emission table denotes; `none` when the table uses a construct outside the model. -/
+def tableEmitter (lang : Lang) (nf : NameFilters) : Option Emitter :=
+  if tableOK Gen.emitSites then
+    some ⟨fun o => (tableRender Gen.emitSites nf lang .support false o).getD none,
+          fun om o => (tableRender Gen.emitSites nf lang .type om o).getD none⟩
+  else none
+
+def parseCall (s : String) : Option (Call × List (String × String)) :=
+  match splitOnChar s ',' with
+  | ["T", om, set] =>
+    if om ≠ "0" ∧ om ≠ "1" then none else
+    (parseSet set).map fun o => (.generateTypes (o.map fun (k, _, v) => (k, v)) (om = "1"), o.map fun (k, n, _) => (k, n))
+  | ["N", id, set] => (parseSet set).map fun o => (.newGenerators id (o.map fun (k, _, v) => (k, v)), o.map fun (k, n, _) => (k, n))
+  | ["P", id, om] => if om ≠ "0" ∧ om ≠ "1" then none else some (.pass id (om = "1"), [])
+  | _ => none
+
+def showResult : RunResult → String
+  | .rejected e => "rej:" ++ showErr e
+  | .encodeError => "err:gen"
+  | .noSuchGenerator => "nogen"
+  | .created => "new"
+  | .ok ⟨d, a⟩ => "ok:" ++ (match d with | none => "x" | some d => showPairs d) ++ ":" ++ showPairs a
+
 def answer (line : String) : String :=
   match line.splitOn " " with
   | ["crc", h] =>
@@ -99,6 +178,49 @@ def answer (line : String) : String :=
       let name := nameFrom ((a ++ b).map fun (k, n, _) => (k, n))
       showDiags (expected name (a.map fun (k, _, v) => (k, v)) (b.map fun (k, _, v) => (k, v)))
     | _, _ => "bad-op"
+  | ["sites"] => if Gen.emitSites.isEmpty then "-" else ";".intercalate (Gen.emitSites.map showSite)
+  | ["cfg", l] =>
+    match parseLang l with
+    | some l =>
+      let c := Gen.fileConfig l
+      showSet c.options ++ "#" ++ (if c.presets.isEmpty then "-" else
+        "&".intercalate (c.presets.map fun (n, o) => encodeStr n.toList ++ "=" ++ showSet o))
+    | none => "bad-op"
+  | ["flow", l, r] =>
+    match parseLang l, parseSet r with
+    | some l, some r =>
+      match effective l (Gen.fileConfig l) (r.map fun (k, _, v) => (k, v)) with
+      | .ok o => "ok " ++ showSet o
+      | .error e => "rej:" ++ showErr e
+    | _, _ => "bad-op"
+  | ["emit", l, side, om, a] =>
+    match parseLang l, parseSet a with
+    | some l, some a =>
+      if (om ≠ "0" ∧ om ≠ "1") ∨ (side ≠ "support" ∧ side ≠ "type") then "bad-op" else
+      let nf := nfFrom (a.map fun (k, n, _) => (k, n))
+      match tableRender Gen.emitSites nf l (if side = "support" then .support else .type) (om = "1")
+          (a.map fun (k, _, v) => (k, v)) with
+      | none => "uninterpretable"
+      | some none => "err:gen"
+      | some (some ps) => "ok:" ++ showPairs ps
+    | _, _ => "bad-op"
+  | ["hist", l, cs] =>
+    match parseLang l, (splitOnChar cs '|').mapM parseCall with
+    | some l, some cs =>
+      let names := (cs.map (·.2)).flatten ++ (Gen.domain l).map fun e => (e.key, e.name)
+      match tableEmitter l (nfFrom names) with
+      | none => "uninterpretable"
+      | some E => "|".intercalate ((runHistory l (Gen.fileConfig l) E [] (cs.map (·.1))).map showResult)
+    | _, _ => "bad-op"
+  | ["cmpx", f, d, v] =>
+    match (if f = "macro" then some DefForm.macro else if f = "u32" then some (DefForm.constexprVar .uint32)
+           else if f = "other" then some (DefForm.other "?") else none), d.toInt?, v.toInt? with
+    | some f, some d, some v =>
+      match evalAssert f .eq d v with
+      | some true => "1"
+      | some false => "0"
+      | none => "undef"
+    | _, _, _ => "bad-op"
   | ["dom", l] =>
     match parseLang l with
     | some l => showDom (Gen.domain l)
